@@ -10,9 +10,15 @@ FreeKeys == {"value", "factor", "addend", "a", "b", "w"}
 
 \* falsy values: a context entry 0 must still override a default
 ZeroCtx == [k \in Keys |-> IF k \in {"value", "factor", "addend"} THEN Num(0) ELSE Absent]
+\* keys present with value None: presence wins over a default, the value None is what is passed
+NullCtx == [k \in Keys |-> IF k \in {"factor", "a"} THEN Null ELSE IF k = "value" THEN Num(5) ELSE Absent]
 AllInitCtxs == {[k \in Keys |-> IF k \in S THEN Num(CtxVal(k)) ELSE Absent] : S \in SUBSET FreeKeys} \cup {ZeroCtx}
 SmallInitCtxs == {[k \in Keys |-> IF k \in S THEN Num(CtxVal(k)) ELSE Absent] :
                      S \in {{}, {"factor"}, {"a"}, {"value", "addend"}, {"factor", "a", "b"}, FreeKeys}} \cup {ZeroCtx}
+\* with a None-valued context (execution-level modules only: static inspection reasons about keys,
+\* and "rename/delete of a key holding None is a no-op" is left outside C02)
+AllInitCtxsN == AllInitCtxs \cup {NullCtx}
+SmallInitCtxsN == SmallInitCtxs \cup {NullCtx}
 ListCtxs == {[k \in Keys |-> IF k = "a" THEN List(<<2, 3>>) ELSE IF k = "factor" THEN Num(3) ELSE Absent],
              [k \in Keys |-> IF k = "a" THEN List(<<>>) ELSE Absent]}
 
@@ -31,6 +37,7 @@ FullNodes ==
     NK("SliceProbe", "a", ""), NK("SliceProbe", "factor", ""), N0("Sum"),
     N0("Sink"), N0("CtxW"), N0("CtxWBad"), N0("Boom"), N0("Abort"),
     NS("SweepSrc", <<1, 2>>), NS("SweepMul", <<2, 3>>), NK("SweepSrcCtx", "a", ""),
+    NS("SweepSrc", <<3>>), NS("SweepMul", <<4>>),       \* a second sweep of each kind (same generated class name)
     WithBogus(NC("Mul", "factor", 4)), WithBogus(N0("Sq")), WithBogus(NK("Rename", "a", "b")),
     N0("PSrc"), N0("PSrcInj"), N0("PSink"), N0("Touch"), NK("ProbeP", "a", ""),
     Node("ProbeP", [x \in {"factor"} |-> 4], "factor", "", <<>>) }
